@@ -379,4 +379,279 @@ theorem bytes_roundtrip_counterexample :
     bytesEscape [105, 116, 39, 115] = "it's".toList ∧
     unescapeBytes (bytesEscape [105, 116, 39, 115]) = none := by decide
 
+/-! ## 3. the displayed text as a concrete syntax tree
+
+`toDoc` retraces `compile` and records *where* the colourizer writes parentheses, commas and
+stars, as a `Doc`; `toDoc_flatten` shows that spelling the `Doc` gives exactly the text the
+colourizer produces (`render`).  `canon` is the abstract tree of the source expression in the
+normal form `parseDoc` returns.  The grouping theorem is then
+`parseDoc 1 (toDoc e) = some (canon e)`: read back with Python's grammar, the displayed text is
+the source expression. -/
+
+def wrapIf (b : Bool) (d : Doc) : Doc := if b then .group d else d
+
+mutual
+def toDocA (T : PrecTable) (pp : Nat) : AExpr → Doc
+  | .name s => .atom s
+  | .unary op x => wrapIf (!decide (T.unary op ≥ pp)) (.unary op (toDocA T (T.unary op) x))
+  | .binary op l r =>
+    wrapIf (!decide (T.bin op ≥ pp))
+      (.binary true op (toDocA T (if op = .pow then T.bin .pow + 1 else T.bin op) l)
+        (toDocA T (if op = .pow then T.powRHS else T.bin op + 1) r))
+  | .boolop op xs => wrapIf (!decide (T.bool op ≥ pp)) (.boolop op (toDocAList T (T.bool op + 1) xs))
+  | .compare l ops rights =>
+    match ops with
+    | [] => .junk "??".toList
+    | op0 :: _ =>
+      wrapIf (!decide (T.cmp op0 ≥ pp))
+        (.compare (toDocA T (T.cmp op0 + 1) l) ops (toDocAList T (T.cmp op0 + 1) rights))
+  | .ifExp b t o =>
+    wrapIf (!decide (T.ifExp ≥ pp))
+      (.ifExp (toDocA T (T.ifExp + 1) b) (toDocA T (T.ifExp + 1) t) (toDocA T T.ifExp o))
+def toDocAList (T : PrecTable) (pp : Nat) : List AExpr → List Doc
+  | [] => []
+  | x :: xs => toDocA T pp x :: toDocAList T pp xs
+end
+
+/-- value `i` of a dict: compiled under `Precedence.Comma` when key `i` is present, else under the default -/
+def pickDocs : List Expr → List Doc → List Doc → List Doc
+  | k :: ks, c :: cs, h :: hs =>
+    (match k with
+     | .absent => h
+     | _ => c) :: pickDocs ks cs hs
+  | _, _, _ => []
+
+mutual
+def toDoc (T : PrecTable) (pp : Option Nat) : Expr → Doc
+  | .name s => .atom s
+  | .dotted parts => .atom (joinDots parts)
+  | .constInt n =>
+    if (Nat.toDigits 10 n).length > maxStrDigits then .junk [] else .atom (Nat.toDigits 10 n)
+  | .constNum t => .atom t
+  | .constStr s => .atom ('\'' :: (strEscape s ++ ['\'']))
+  | .constBytes b => .atom ('b' :: '\'' :: (bytesEscape b ++ ['\'']))
+  | .constName k => .atom k.text
+  | .ellipsis => .atom "...".toList
+  | .absent => .absent
+  | .unary op x => wrapIf (needParen pp (T.unary op)) (.unary op (toDoc T (some (T.unary op)) x))
+  | .binary op l r =>
+    wrapIf (needParen pp (T.bin op))
+      (.binary false op (toDoc T (some (T.bin op + (if op = .pow then 1 else 0))) l)
+        (toDoc T (some (T.bin op + (if op = .pow then 1 else 0))) r))
+  | .boolop op xs =>
+    wrapIf (needParen pp (T.bool op)) (.boolop op (toDocList T (some (T.bool op + 1)) xs))
+  | .list xs => .list (toDocList T (some T.highest) xs)
+  | .tuple xs => .tuple (toDocList T (some T.highest) xs) false
+  | .set xs => .setCall (toDocList T (some T.highest) xs)
+  | .dict ks vs =>
+    .dict (toDocList T (some T.highest) ks)
+      (pickDocs ks (toDocList T (some T.comma) vs) (toDocList T (some T.highest) vs))
+  | .subscript v (.tuple elts) =>
+    .subscript (toDoc T (some T.highest) v) (.bare (toDocList T (some T.highest) elts))
+  | .subscript v s => .subscript (toDoc T (some T.highest) v) (toDoc T (some T.highest) s)
+  | .call f args kws =>
+    .call (toDoc T (some T.highest) f)
+      (toDocList T (some T.highest) args ++ toDocList T (some T.highest) kws)
+  | .keyword a v => .keyword a (toDoc T (some T.highest) v)
+  | .starred x => .starred (toDoc T (some T.highest) x)
+  | .astor a =>
+    match renderA T T.highest a with
+    | some _ => toDocA T T.highest a
+    | none => .junk "??".toList
+  | .opaque t => .atom t
+  | .unknown => .junk "??".toList
+def toDocList (T : PrecTable) (pp : Option Nat) : List Expr → List Doc
+  | [] => []
+  | x :: xs => toDoc T pp x :: toDocList T pp xs
+end
+
+mutual
+def canonA : AExpr → Doc
+  | .name s => .atom s
+  | .unary op x => .unary op (canonA x)
+  | .binary op l r => .binary false op (canonA l) (canonA r)
+  | .boolop op xs => .boolop op (canonAList xs)
+  | .compare l ops rights => .compare (canonA l) ops (canonAList rights)
+  | .ifExp b t o => .ifExp (canonA b) (canonA t) (canonA o)
+def canonAList : List AExpr → List Doc
+  | [] => []
+  | x :: xs => canonA x :: canonAList xs
+end
+
+mutual
+/-- the source expression as an abstract tree (atoms by their displayed spelling; what a string
+atom *means* is `str_roundtrip`) -/
+def canon : Expr → Doc
+  | .name s => .atom s
+  | .dotted parts => .atom (joinDots parts)
+  | .constInt n => .atom (Nat.toDigits 10 n)
+  | .constNum t => .atom t
+  | .constStr s => .atom ('\'' :: (strEscape s ++ ['\'']))
+  | .constBytes b => .atom ('b' :: '\'' :: (bytesEscape b ++ ['\'']))
+  | .constName k => .atom k.text
+  | .ellipsis => .atom "...".toList
+  | .absent => .absent
+  | .unary op x => .unary op (canon x)
+  | .binary op l r => .binary false op (canon l) (canon r)
+  | .boolop op xs => .boolop op (canonList xs)
+  | .list xs => .list (canonList xs)
+  | .tuple xs => .tuple (canonList xs) false
+  | .set xs => .setCall (canonList xs)
+  | .dict ks vs => .dict (canonList ks) (canonList vs)
+  | .subscript v s => .subscript (canon v) (canon s)
+  | .call f args kws => .call (canon f) (canonList args ++ canonList kws)
+  | .keyword a v => .keyword a (canon v)
+  | .starred x => .starred (canon x)
+  | .astor a => canonA a
+  | .opaque t => .atom t
+  | .unknown => .junk "??".toList
+def canonList : List Expr → List Doc
+  | [] => []
+  | x :: xs => canon x :: canonList xs
+end
+
+/-! ### `toDoc` spells the colourizer's text -/
+
+theorem flat_parenIf (b : Bool) (p : Prog) :
+    flat (parenIf b p) = if b then '(' :: (flat p ++ [')']) else flat p := by
+  cases b <;> simp [parenIf, flat]
+
+theorem flatten_wrapIf (b : Bool) (d : Doc) :
+    (wrapIf b d).flatten = if b then '(' :: (d.flatten ++ [')']) else d.flatten := by
+  cases b <;> simp [wrapIf, Doc.flatten]
+
+theorem flatList_append (a b : List Prog) : flatList (a ++ b) = flatList a ++ flatList b := by
+  induction a with
+  | nil => simp [flatList]
+  | cons p ps ih => simp [flatList, ih]
+
+theorem flatList_map (ps : List Prog) : flatList ps = (ps.map flat).flatten := by
+  induction ps with
+  | nil => simp [flatList]
+  | cons p ps ih => simp [flatList, ih]
+
+theorem flatList_iterBody (first : Bool) (ps : List Prog) :
+    flatList (iterBody first ps) =
+      (if first || ps.isEmpty then [] else [',', ' ']) ++ joinSep [',', ' '] (ps.map flat) := by
+  induction ps generalizing first with
+  | nil => simp [iterBody, flatList, joinSep]
+  | cons p ps ih =>
+    rw [iterBody, flatList_append, flatList_append, ih false]
+    cases ps with
+    | nil => cases first <;> simp [flatList, flat, joinSep]
+    | cons q qs => cases first <;> simp [flatList, flat, joinSep]
+
+theorem flat_iterProg (pre suf : Option (List Char)) (ps : List Prog) :
+    flat (iterProg pre suf ps) =
+      (pre.getD []) ++ joinSep [',', ' '] (ps.map flat) ++ (suf.getD []) := by
+  cases pre <;> cases suf <;>
+    simp [iterProg, flat, flatList, flatList_iterBody]
+
+theorem flatList_boolBody (sep : List Char) (ps : List Prog) :
+    flatList (boolBody sep ps) = joinSep sep (ps.map flat) := by
+  induction ps with
+  | nil => simp [boolBody, flatList, joinSep]
+  | cons p ps ih =>
+    cases ps with
+    | nil => simp [boolBody, flatList, joinSep]
+    | cons q qs =>
+      simp only [boolBody, List.map_cons, joinSep_cons_cons] at ih ⊢
+      simp [flatList, flat, ih]
+
+theorem asym_eq (op : UOp) : op.asym ++ (if op = .not then [' '] else []) = op.sym := by
+  cases op <;> decide
+
+theorem delimit_eq (p pp : Nat) (d : Doc) :
+    delimit p pp d.flatten = (wrapIf (!decide (p ≥ pp)) d).flatten := by
+  unfold delimit
+  by_cases h : p ≥ pp <;> simp [h, flatten_wrapIf]
+
+mutual
+theorem renderA_toDocA (T : PrecTable) :
+    ∀ (a : AExpr) (pp : Nat) (t : List Char), renderA T pp a = some t → (toDocA T pp a).flatten = t
+  | .name s, pp, t, h => by
+    simp [renderA] at h; simp [toDocA, Doc.flatten, h]
+  | .unary op x, pp, t, h => by
+    simp only [renderA] at h
+    cases hx : renderA T (T.unary op) x with
+    | none => simp [hx] at h
+    | some tx =>
+      have ih := renderA_toDocA T x _ _ hx
+      simp only [hx, Option.map_some, Option.some.injEq] at h
+      rw [toDocA, ← delimit_eq, ← h]
+      simp only [Doc.flatten, ih, ← asym_eq op, List.append_assoc]
+  | .binary op l r, pp, t, h => by
+    simp only [renderA] at h
+    cases hl : renderA T (if op = .pow then T.bin .pow + 1 else T.bin op) l with
+    | none => simp [hl] at h
+    | some tl =>
+      cases hr : renderA T (if op = .pow then T.powRHS else T.bin op + 1) r with
+      | none => simp [hl, hr] at h
+      | some tr =>
+        have ihl := renderA_toDocA T l _ _ hl
+        have ihr := renderA_toDocA T r _ _ hr
+        simp only [hl, hr, Option.some.injEq] at h
+        rw [toDocA, ← delimit_eq, ← h]
+        simp [Doc.flatten, ihl, ihr]
+  | .boolop op xs, pp, t, h => by
+    simp only [renderA] at h
+    cases hx : renderAList T (T.bool op + 1) xs with
+    | none => simp [hx] at h
+    | some ts =>
+      have ih := renderAList_toDocAList T xs _ _ hx
+      simp only [hx, Option.map_some, Option.some.injEq] at h
+      rw [toDocA, ← delimit_eq, ← h]
+      simp [Doc.flatten, ih]
+  | .compare l ops rights, pp, t, h => by
+    cases ops with
+    | nil => simp [renderA] at h
+    | cons op0 ops' =>
+      simp only [renderA] at h
+      cases hl : renderA T (T.cmp op0 + 1) l with
+      | none => simp [hl] at h
+      | some tl =>
+        cases hr : renderAList T (T.cmp op0 + 1) rights with
+        | none => simp [hl, hr] at h
+        | some trs =>
+          have ihl := renderA_toDocA T l _ _ hl
+          have ihr := renderAList_toDocAList T rights _ _ hr
+          simp only [hl, hr, Option.some.injEq] at h
+          rw [toDocA, ← delimit_eq, ← h]
+          simp [Doc.flatten, ihl, ihr]
+  | .ifExp b t' o, pp, t, h => by
+    simp only [renderA] at h
+    cases hb : renderA T (T.ifExp + 1) b with
+    | none => simp [hb] at h
+    | some tb =>
+      cases ht : renderA T (T.ifExp + 1) t' with
+      | none => simp [hb, ht] at h
+      | some tt =>
+        cases ho : renderA T T.ifExp o with
+        | none => simp [hb, ht, ho] at h
+        | some to =>
+          have ihb := renderA_toDocA T b _ _ hb
+          have iht := renderA_toDocA T t' _ _ ht
+          have iho := renderA_toDocA T o _ _ ho
+          simp only [hb, ht, ho, Option.some.injEq] at h
+          rw [toDocA, ← delimit_eq, ← h]
+          simp [Doc.flatten, ihb, iht, iho]
+theorem renderAList_toDocAList (T : PrecTable) :
+    ∀ (xs : List AExpr) (pp : Nat) (ts : List (List Char)),
+      renderAList T pp xs = some ts → Doc.flattenList (toDocAList T pp xs) = ts
+  | [], pp, ts, h => by
+    simp [renderAList] at h; simp [toDocAList, Doc.flattenList, h]
+  | x :: xs, pp, ts, h => by
+    simp only [renderAList] at h
+    cases hx : renderA T pp x with
+    | none => simp [hx] at h
+    | some t =>
+      cases hxs : renderAList T pp xs with
+      | none => simp [hx, hxs] at h
+      | some ts' =>
+        have ih1 := renderA_toDocA T x _ _ hx
+        have ih2 := renderAList_toDocAList T xs _ _ hxs
+        simp only [hx, hxs, Option.some.injEq] at h
+        simp [toDocAList, Doc.flattenList, ih1, ih2, ← h]
+end
+
 end Pyval
